@@ -121,7 +121,8 @@ class Tr:
         self.ret_ty = spec.get("returns")
         self.assume = spec.get("assume", {})
         self.ignore_calls = set(spec.get("ignore_calls", []))
-        self.skip_targets = set(spec.get("skip_targets", []))
+        st = spec.get("skip_targets", {})
+        self.skip_targets = st if isinstance(st, dict) else {k: None for k in st}   # target -> expected source (None = any)
         self.outputs = spec.get("outputs", [])
         self.yield_ty = spec.get("yield_type")
 
@@ -240,6 +241,13 @@ class Tr:
                 i = idx.value if idx.value >= 0 else n + idx.value
                 if not 0 <= i < n:
                     raise TranslationError(f"index out of range in {src}")
+                return proj(base, i, n), tb[1][i]
+            if isinstance(tb, tuple) and tb[0] == "tuple" and isinstance(idx, ast.Tuple) and len(idx.elts) == 2 \
+                    and isinstance(idx.elts[0], ast.Slice) and idx.elts[0].lower is None and idx.elts[0].upper is None \
+                    and isinstance(idx.elts[1], ast.Constant) and isinstance(idx.elts[1].value, int):
+                # elementwise reading of `points[:, k]`: component k of every point
+                n = len(tb[1])
+                i = idx.elts[1].value
                 return proj(base, i, n), tb[1][i]
             raise TranslationError(f"subscript {src}")
         if isinstance(node, ast.Tuple):
@@ -380,6 +388,19 @@ class Tr:
     def call(self, node, env):
         fname = self.dotted(node.func)
         args = [self.expr(a, env) for a in node.args]
+        if fname in ("np.asanyarray", "np.asarray", "list", "tuple") and len(args) == 1 and not node.keywords:
+            return args[0]          # elementwise reading / tuple-as-list
+        inl = self.spec.get("inline", {}).get(fname)
+        if isinstance(inl, dict) and not node.keywords:
+            actual = []
+            for pn in inl.get("implicit", []):
+                if pn not in env:
+                    raise TranslationError(f"inlined call {fname} needs {pn}")
+                actual.append(env[pn][0])
+            actual += [self.coerce(a, ta, want) for (a, ta), want in zip(args, inl.get("args", []))]
+            if len(args) != len(inl.get("args", [])):
+                raise TranslationError(f"inlined call {fname}: wrong number of arguments")
+            return f"({inl['lean']} {' '.join(actual)})" if actual else inl["lean"], inl["returns"]
         if node.keywords:
             raise TranslationError(f"keyword arguments in {ast.unparse(node)}")
         if fname in ("max", "min") and len(args) >= 2:
@@ -515,7 +536,7 @@ class Tr:
                 return self.fragment_result(env, e)   # one pass of the loop body ends at the yield
             raise TranslationError("yield in a plain function")
         if isinstance(s, ast.Return):
-            if self.mode == "fragment" and s.value is None:
+            if self.mode == "fragment" and (s.value is None or self.spec.get("ignore_return_value")):
                 return self.fragment_result(env, None)
             if self.mode == "generator" and s.value is None:
                 return self.wrap(env["$out"][0])
@@ -557,10 +578,18 @@ class Tr:
                     code += c
                 return code + cont(env2)
             name = self.dotted(tgt)
+            if name is None and isinstance(tgt, ast.Subscript):
+                return self.subscript_store(s, tgt, env, cont)
             if name is None:
                 raise TranslationError(f"assignment target {ast.unparse(tgt)}")
             if name in self.skip_targets:
+                want_src = self.skip_targets[name]
+                if want_src is not None and ast.dump(s) != ast.dump(ast.parse(want_src).body[0]):
+                    raise TranslationError(f"statement outside the translated subset changed: `{ast.unparse(s)[:100]}` "
+                                           f"(expected `{want_src}`)")
                 return cont(env)
+            if isinstance(tgt, ast.Subscript):
+                return self.subscript_store(s, tgt, env, cont)
             e, t = self.expr(s.value, env)
             want = self.spec.get("var_types", {}).get(name)
             if want is not None:
@@ -610,6 +639,21 @@ class Tr:
         if isinstance(s, ast.While):
             return self.loop(s, rest, env, k)
         raise TranslationError(f"statement {type(s).__name__}: {ast.unparse(s)[:80]}")
+
+    def subscript_store(self, s, tgt, env, cont):
+        """`name[k] = e` on a tuple-typed (list-valued) variable with a constant index"""
+        base = self.dotted(tgt.value)
+        if base is None or base not in env or not (isinstance(env[base][1], tuple) and env[base][1][0] == "tuple") \
+                or not (isinstance(tgt.slice, ast.Constant) and isinstance(tgt.slice.value, int)):
+            raise TranslationError(f"assignment target {ast.unparse(tgt)}")
+        e0, t0 = env[base]
+        n = len(t0[1])
+        i = tgt.slice.value if tgt.slice.value >= 0 else n + tgt.slice.value
+        e, t = self.expr(s.value, env)
+        parts = [proj(e0, j, n) for j in range(n)]
+        parts[i] = self.coerce(e, t, t0[1][i])
+        code, env2 = self.bind(base, "(" + ", ".join(parts) + ")", t0, env)
+        return code + cont(env2)
 
     def _list_ty(self):
         return f"(List {lean_ty(self.yield_ty)})"
@@ -744,6 +788,46 @@ def _after_call(callsrc):
     return sel
 
 
+def _assignments_to(*targets, guards=()):
+    """the top-level assignments of the function whose (dotted) target is one of `targets`, in source order;
+    `guards` are statements that must be present verbatim somewhere at top level"""
+    def sel(fn):
+        have = {ast.dump(s) for s in fn.body}
+        for g in guards:
+            if ast.dump(ast.parse(g).body[0]) not in have:
+                raise TranslationError(f"expected statement `{g}` not found")
+        out = []
+        for s in fn.body:
+            if isinstance(s, ast.Assign) and len(s.targets) == 1:
+                try:
+                    d = ast.unparse(s.targets[0])
+                except Exception:
+                    continue
+                if d in targets:
+                    out.append(s)
+        if not out:
+            raise TranslationError("no assignment to " + ", ".join(targets))
+        return out
+    return sel
+
+
+def _drop(*sources):
+    """all statements except the listed ones, each of which must be present verbatim (they are modelled separately)"""
+    def sel(fn):
+        dumps = [ast.dump(ast.parse(src).body[0]) for src in sources]
+        out, seen = [], set()
+        for s in fn.body:
+            d = ast.dump(s)
+            if d in dumps:
+                seen.add(d)
+            else:
+                out.append(s)
+        if len(seen) != len(dumps):
+            raise TranslationError("a statement that is modelled separately changed: expected all of " + " ; ".join(sources))
+        return out
+    return sel
+
+
 def _same(stmt, ref):
     return ast.dump(stmt) == ast.dump(ast.parse(ref).body[0])
 
@@ -764,7 +848,7 @@ SPECS = [
     dict(name="create_slices_from_bounds", file="pyresample/slicer.py", func="AreaSlicer._create_slices_from_bounds",
          params=[("bounds", tup(tup(RAT, RAT), tup(RAT, RAT)))], returns=tup(sl(INT), sl(INT)),
          select=lambda fn: list(fn.body[:2]) + list(fn.body[2].body) + list(fn.body[3:]),   # the body of the `try:`
-         inline={"expand_slice": "expand_slice"}, owners=["C11"]),
+         inline={"expand_slice": dict(lean="expand_slice", args=[sl(INT)], returns=sl(INT))}, owners=["C11"]),
     dict(name="get_slice_starts_stops", file="pyresample/future/geometry/_subset.py", func="_get_slice_starts_stops",
          params=[("llx", RAT), ("lly", RAT), ("urx", RAT), ("ury", RAT), ("x", tup(RAT, RAT)), ("y", tup(RAT, RAT)),
                  ("src_area.area_extent", tup(RAT, RAT, RAT, RAT)), ("src_area.width", INT), ("src_area.height", INT)],
@@ -780,7 +864,11 @@ SPECS = [
     dict(name="scheduler_init", file="pyresample/_multi_proc.py", func="Scheduler.__init__", mode="fragment", raises=True,
          params=[("ndata", INT), ("nprocs", INT), ("chunk", opt(INT)), ("schedule", STR)],
          outputs=["self._chunk"], output_types={"self._chunk": INT}, select=_whole,
-         skip_targets=["self._ndata", "self._start", "self._lock", "self._schedule", "self._nprocs"], owners=["C15"]),
+         skip_targets={"self._ndata": "self._ndata = mp.RawValue(ctypes.c_int, ndata)",
+                       "self._start": "self._start = mp.RawValue(ctypes.c_int, 0)",
+                       "self._lock": "self._lock = mp.Lock()",
+                       "self._schedule": "self._schedule = schedule",
+                       "self._nprocs": "self._nprocs = nprocs"}, owners=["C15"]),
     dict(name="scheduler_iter_body", file="pyresample/_multi_proc.py", func="Scheduler.__iter__", mode="fragment",
          params=[("self._ndata.value", INT), ("self._start.value", INT), ("self._nprocs", INT), ("self._chunk", INT),
                  ("self._schedule", STR)],
@@ -795,6 +883,56 @@ SPECS = [
          params=[("corners", tup(RAT, RAT, RAT, RAT)), ("resolution", tup(RAT, RAT))],
          assume={"shape": False, "resolution": True}, returns=tup(tup(RAT, RAT, RAT, RAT), INT, INT),
          select=_from_if("shape"), owners=["C14"]),
+    dict(name="update_corners_shape", file="pyresample/geometry.py", func="DynamicAreaDefinition._update_corners_for_full_extent",
+         params=[("corners", tup(opt(RAT), RAT, opt(RAT), RAT)), ("shape", tup(INT, INT)), ("aou.west", RAT), ("aou.east", RAT)],
+         returns=tup(opt(RAT), RAT, opt(RAT), RAT), select=_drop("aou = self._get_crs_area_of_use(projection)"), owners=["C14"]),
+    dict(name="update_corners_res", file="pyresample/geometry.py", func="DynamicAreaDefinition._update_corners_for_full_extent",
+         params=[("corners", tup(opt(RAT), RAT, opt(RAT), RAT)), ("resolution", tup(RAT, RAT)), ("aou.west", RAT), ("aou.east", RAT)],
+         assume={"shape is not None": False},
+         returns=tup(opt(RAT), RAT, opt(RAT), RAT), select=_drop("aou = self._get_crs_area_of_use(projection)"), owners=["C14"]),
+    # ---- the grid of an AreaDefinition (C01, C07, C08, C10, C18) -----------------------------------
+    dict(name="area_init_derived", file="pyresample/geometry.py", func="AreaDefinition.__init__", mode="fragment",
+         params=[("area_extent", tup(RAT, RAT, RAT, RAT)), ("self.area_extent", tup(RAT, RAT, RAT, RAT)), ("width", INT), ("height", INT)],
+         outputs=["self.pixel_size_x", "self.pixel_size_y", "self.pixel_upper_left", "self.pixel_offset_x", "self.pixel_offset_y"],
+         output_types={"self.pixel_size_x": RAT, "self.pixel_size_y": RAT, "self.pixel_upper_left": tup(RAT, RAT),
+                       "self.pixel_offset_x": RAT, "self.pixel_offset_y": RAT},
+         select=_assignments_to("self.pixel_size_x", "self.pixel_size_y", "self.pixel_upper_left", "self.pixel_offset_x",
+                                "self.pixel_offset_y", guards=["self._area_extent = tuple(area_extent)"]),
+         owners=["C01", "C10", "C18", "C07"]),
+    dict(name="get_corner_and_scale", file="pyresample/geometry.py", func="AreaDefinition._get_corner_and_scale",
+         params=[("self.pixel_size_x", RAT), ("self.pixel_size_y", RAT), ("self.pixel_upper_left", tup(RAT, RAT))],
+         returns=tup(RAT, RAT, RAT, RAT), select=_whole, owners=["C01", "C18"]),
+    dict(name="array_from_proj", file="pyresample/geometry.py", func="AreaDefinition.get_array_coordinates_from_projection_coordinates",
+         params=[("xm", RAT), ("ym", RAT), ("self.pixel_size_x", RAT), ("self.pixel_size_y", RAT), ("self.pixel_upper_left", tup(RAT, RAT))],
+         returns=tup(RAT, RAT), select=_whole,
+         inline={"self._get_corner_and_scale": dict(lean="get_corner_and_scale", returns=tup(RAT, RAT, RAT, RAT),
+                                                    implicit=["self.pixel_size_x", "self.pixel_size_y", "self.pixel_upper_left"])},
+         owners=["C01", "C18"]),
+    dict(name="proj_from_array", file="pyresample/geometry.py", func="AreaDefinition.get_projection_coordinates_from_array_coordinates",
+         params=[("cols", RAT), ("rows", RAT), ("self.pixel_size_x", RAT), ("self.pixel_size_y", RAT), ("self.pixel_upper_left", tup(RAT, RAT))],
+         returns=tup(RAT, RAT), select=_whole,
+         inline={"self._get_corner_and_scale": dict(lean="get_corner_and_scale", returns=tup(RAT, RAT, RAT, RAT),
+                                                    implicit=["self.pixel_size_x", "self.pixel_size_y", "self.pixel_upper_left"])},
+         owners=["C01", "C18"]),
+    # ---- C10 -----------------------------------------------------------------------------------
+    dict(name="area_getitem", file="pyresample/geometry.py", func="AreaDefinition.__getitem__", mode="fragment",
+         params=[("yindices", tup(INT, INT, INT)), ("xindices", tup(INT, INT, INT)), ("self.height", INT), ("self.width", INT),
+                 ("self.pixel_upper_left", tup(RAT, RAT)), ("self.pixel_size_x", RAT), ("self.pixel_size_y", RAT),
+                 ("self.area_extent", tup(RAT, RAT, RAT, RAT)), ("self.crop_offset", tup(INT, INT))],
+         outputs=["total_cols", "total_rows", "new_area_extent", "new_area.crop_offset"],
+         output_types={"total_cols": INT, "total_rows": INT, "new_area_extent": tup(RAT, RAT, RAT, RAT),
+                       "new_area.crop_offset": tup(INT, INT)},
+         select=_drop("yslice, xslice = key", "yindices = yslice.indices(self.height)", "xindices = xslice.indices(self.width)"),
+         skip_targets={"new_area": "new_area = AreaDefinition(self.area_id, self.description, self.proj_id, self.crs, "
+                                   "total_cols, total_rows, new_area_extent)"},
+         ignore_return_value=True, owners=["C10"]),
+    # ---- C06 -----------------------------------------------------------------------------------
+    dict(name="calc_abc", file="pyresample/bilinear/_base.py", func="_calc_abc",
+         params=[("corner_points", tup(tup(RAT, RAT), tup(RAT, RAT), tup(RAT, RAT), tup(RAT, RAT))), ("out_y", RAT), ("out_x", RAT)],
+         returns=tup(RAT, RAT, RAT), select=_whole, owners=["C06"]),
+    dict(name="bil_resample", file="pyresample/bilinear/_base.py", func="_resample",
+         params=[("corner_points", tup(RAT, RAT, RAT, RAT)), ("fractional_distances", tup(RAT, RAT))],
+         returns=RAT, select=_whole, owners=["C06"]),
     # ---- C13 -----------------------------------------------------------------------------------
     dict(name="round_shape", file="pyresample/area_config.py", func="_round_shape",
          params=[("shape", tup(RAT, RAT))], returns=tup(INT, INT), assume={"shape is None": False, "incorrect_shape": False},
@@ -860,9 +998,6 @@ class Tr3(Tr):
 
     def call(self, node, env):
         fname = self.dotted(node.func)
-        if fname in self.spec.get("inline", {}):
-            args = [self.expr(a, env) for a in node.args]
-            return f"({self.spec['inline'][fname]} {' '.join(a for a, _ in args)})", sl(INT)
         if fname == "slice" and isinstance(self.ret_ty, tuple) and self.ret_ty[0] == "slice3" and len(node.args) == 3:
             args = [self.expr(a, env) for a in node.args]
             t = self.ret_ty[1]
